@@ -114,8 +114,11 @@ func implCompile(dir string, p *Prog, o Orders) (answer string, mod *compile.Mod
 			mod = nil
 		}
 	}()
-	if dbg := os.Getenv("VERIF_DEBUG_LAST"); dbg != "" {
-		os.WriteFile(dbg, []byte(p.Sexp()+"\n"), 0o644)
+	// the input about to be compiled in this process: a fatal error of the runtime (stack
+	// overflow, out of memory) cannot be recovered, so bin/check reads this file when the
+	// harness dies and reports its content as the failing input
+	if *out != "" {
+		os.WriteFile(*out+".current", []byte(fmt.Sprintf("G %d O 0 %s\n", modelFuel, p.Sexp())), 0o644)
 	}
 	var opts []compile.Option
 	if !p.Strict {
@@ -224,6 +227,7 @@ func main() {
 			rep.Notes = append(rep.Notes, "known finding "+id+": its witness no longer fails on this tree (turn the record into status=fixed)")
 		}
 	}
+	os.Remove(*out + ".current")
 	if err := rep.Write(*out); err != nil {
 		fmt.Fprintln(os.Stderr, err)
 		os.RemoveAll(tmp)
